@@ -12,6 +12,7 @@ SPEC = dict(
          "non-trivial with >= 2 reads and a held-up strong read; "
          "deposed writes: k in {1,2,3} tagged non-idempotent inserts (Execute / Request + the proxy's forward-on-ErrNotLeader rule) in flight on a leader that is made deaf, cut off until its successor committed them, and re-connected; "
          "class returned, log growth, forwarding, rows per tag; non-trivial when the entry was appended and the call not acknowledged; "
+         "transfer-read: linearizable read (Query / Request) on an old leader that was made deaf and handed leadership over, after the new leader acknowledged a write - must not return the old value, and no read is served locally without a VerifyLeader of its own; "
          "black-box: register workloads (6 clients on all nodes, 4 keys, unique values, 40% writes / 50% linearizable / 10% strong reads, client-side forwarding) of 5 s with 3 stepdowns, "
          "non-trivial when there was >= 1 leader change and >= 1 read concurrent with a write of the same key; distinct by input and history length",
     trusted=["hashicorp/raft is NOT modelled: Election Safety, Leader Completeness, State Machine Safety, the commit rule, 'a successful VerifyLeader with unchanged term means no larger term existed when it started' "
@@ -21,7 +22,7 @@ SPEC = dict(
              "proxy.Execute/Request are not linked into the store test (import cycle): their forward-iff-ErrNotLeader rule is restated in the driver",
              "the Go linearizability search (per key, memoised Wing-Gong) is the oracle of the black-box part; it has no Coq counterpart"],
     assumptions=["partial: Raft assumed (see trusted); 5-node clusters and partition/crash fault schedules of the property's quantifier are not explored by the driver"],
-    level_text="C02_first_read_in_term_upgrades, C02_first_read_in_term_goes_through_the_log, C02_srt_only_by_applied_strong_read, C02_concurrent_first_reads_all_upgrade, C02_no_double_apply (premise: raft never appends what it refuses with ErrNotLeader), C02_leadership_lost_is_unknown_and_stays_here and C02_acked_call_has_one_entry are about rqlite's code alone. "
+    level_text="C02_first_read_in_term_upgrades, C02_first_read_in_term_goes_through_the_log, C02_srt_only_by_applied_strong_read, C02_concurrent_first_reads_all_upgrade, C02_no_double_apply (premise: raft never appends what it refuses with ErrNotLeader), C02_leadership_lost_is_unknown_and_stays_here, C02_acked_call_has_one_entry and C02_lin_ok_has_own_verify are about rqlite's code alone. "
                "C02_lin_read_sees_acked_writes_partial, C02_deposed_leader_refuses_partial and C02_linearizable_partial hold for every log, every history and every read under the explicit premise raft_ok "
                "(six hypotheses about hashicorp/raft and the FSM); they are statements about wait_lin, the function evaluated on the driver's traces.",
     level_note="Model = waitForLinearizableRead + lastCommandIndex (Model/C02_ReadIndex.v), dispatch (Model/C16.v), log/replay/points (Model/C02.v); "
